@@ -25,6 +25,12 @@ def _stack(*ms):
     return symnp.array([m.tolist() for m in ms])
 
 
+def _rows4(v):
+    from pysym import symnp
+    p, q = v.vec(*P), v.vec(*Q)
+    return symnp.array([p.tolist(), q.tolist(), (-p).tolist(), q.tolist()]), symnp.array([q.tolist(), p.tolist(), q.tolist(), (-p).tolist()])
+
+
 def _mat(v, names):
     return v.mat([names[0:3], names[3:6], names[6:9]])
 
@@ -37,8 +43,9 @@ def targets():
         mk('chordal_M', MA + MB, lambda A, v: U(A).chordal(_mat(v, MA), _mat(v, MB)), 'chordal(R1, R2), arbitrary 3x3 entries'),
         mk('iddev_M', MA + MB, lambda A, v: U(A).identity_deviation(_mat(v, MA), _mat(v, MB)),
            'identity_deviation(R1, R2), arbitrary 3x3 entries'),
-        mk('chordal_M_batch', MA + MB, lambda A, v: U(A).chordal(_stack(_mat(v, MA), _mat(v, MB)), _stack(_mat(v, MB), _mat(v, MA))),
-           'chordal([R1,R2], [R2,R1]): the N-row branch, two rows'),
+        mk('chordal_M_batch', MA + MB, lambda A, v: U(A).chordal(_stack(_mat(v, MA), _mat(v, MB), _mat(v, MA)),
+                                                               _stack(_mat(v, MB), _mat(v, MA), _mat(v, MA))),
+           'chordal([R1,R2,R1], [R2,R1,R1]): the N-row branch with N = 3 (a 3x3x3 array)'),
         # matrix metrics on the textbook matrices of two symbolic unit quaternions
         mk('chordal', P + Q, lambda A, v: U(A).chordal(_rspec(v, P), _rspec(v, Q)), 'chordal(R(p), R(q))'),
         mk('iddev', P + Q, lambda A, v: U(A).identity_deviation(_rspec(v, P), _rspec(v, Q)), 'identity_deviation(R(p), R(q))'),
@@ -49,10 +56,11 @@ def targets():
         mk('qeip', P + Q, lambda A, v: U(A).qeip(v.vec(*P), v.vec(*Q))),
         mk('qcip', P + Q, lambda A, v: U(A).qcip(v.vec(*P), v.vec(*Q))),
         mk('qad', P + Q, lambda A, v: U(A).qad(v.vec(*P), v.vec(*Q))),
-        mk('qdist_batch', P + Q, lambda A, v: U(A).qdist(v.mat([P, Q]), v.mat([Q, P])), 'two rows: (p,q) and (q,p)'),
-        mk('qeip_batch', P + Q, lambda A, v: U(A).qeip(v.mat([P, Q]), v.mat([Q, P]))),
-        mk('qcip_batch', P + Q, lambda A, v: U(A).qcip(v.mat([P, Q]), v.mat([Q, P]))),
-        mk('qad_batch', P + Q, lambda A, v: U(A).qad(v.mat([P, Q]), v.mat([Q, P]))),
+        # N = 4 rows (a 4x4 array, where an axis mix-up does not change the shape): (p,q), (q,p), (-p,q), (q,-p)
+        mk('qdist_batch', P + Q, lambda A, v: U(A).qdist(*_rows4(v)), 'four rows: (p,q), (q,p), (-p,q), (q,-p)'),
+        mk('qeip_batch', P + Q, lambda A, v: U(A).qeip(*_rows4(v))),
+        mk('qcip_batch', P + Q, lambda A, v: U(A).qcip(*_rows4(v))),
+        mk('qad_batch', P + Q, lambda A, v: U(A).qad(*_rows4(v))),
     ]
 
 
